@@ -482,7 +482,9 @@ func runC08(c *core.Ctx) {
 				okCDI = false
 				c.Fail("cancel-drains-input", name, sel.Pos(), "on cancellation the values whose send already completed into the send-side buffer (capacity > 0) are never moved to the queue: they are lost although their send completed")
 			}
-			if !pathFlushes(p, g.An, flushSeen) {
+			if emptyBefore(p, selIdx) > 0 && p.To == nil {
+				// cancelled while the queue is known to be empty: there is nothing to flush
+			} else if !pathFlushes(p, g.An, flushSeen) {
 				okFlush = false
 				c.Fail("flush", name, sel.Pos(), "on cancellation the queued backlog is not flushed to the receive side")
 			}
